@@ -932,6 +932,36 @@ def hoist_common_tail(fn: ast.FunctionDef, ref_fn: dict) -> None:
             for i, st in enumerate(blk):
                 if not (isinstance(st, ast.If) and st.orelse and st.body):
                     continue
+                # an if/elif/else chain every leaf of which ends in `return E_i`, where the reference assigns x = E_i in the
+                # leaves and returns x behind the chain
+                if i + 1 == len(blk):
+                    leaves = []
+
+                    def collect(node):
+                        leaves.append(node.body)
+                        if len(node.orelse) == 1 and isinstance(node.orelse[0], ast.If):
+                            collect(node.orelse[0])
+                        else:
+                            leaves.append(node.orelse)
+                    collect(st)
+                    if len(leaves) > 2 and all(b_ and isinstance(b_[-1], ast.Return) and b_[-1].value is not None for b_ in leaves):
+                        xs = set()
+                        for l_ in ref_lines:
+                            if l_.startswith("return ") and l_[7:].isidentifier():
+                                xs.add(l_[7:])
+                        for x_ in sorted(xs):
+                            if all(f"{x_} = {_u(b_[-1].value)}" in ref_lines or _u(b_[-1].value) == x_ for b_ in leaves):
+                                for b_ in leaves:
+                                    r_ = b_.pop()
+                                    if _u(r_.value) != x_:
+                                        b_.append(ast.copy_location(ast.Assign(targets=[ast.Name(id=x_, ctx=ast.Store())], value=r_.value), r_))
+                                    elif not b_:
+                                        b_.append(ast.copy_location(ast.Pass(), r_))
+                                blk.append(ast.copy_location(ast.Return(value=ast.Name(id=x_, ctx=ast.Load())), st))
+                                changed = True
+                                break
+                        if changed:
+                            break
                 a, b = st.body[-1], st.orelse[-1]
                 # `...; return E` / `...; return x`  ->  `...; x = E` / `...` + `return x`, when the reference assigns x = E
                 if isinstance(a, ast.Return) and isinstance(b, ast.Return) and a.value is not None and b.value is not None and _u(a) != _u(b):
